@@ -322,16 +322,16 @@ func emitWideCompare(g *tr.G) {
 	} else {
 		w3 = w2
 	}
-	for i := 0; i < g.Scale(3000, 200000); i++ {
+	for i := 0; i < g.Scale(3000, 100000); i++ {
 		emitX(g, tr.Pick(g.R, w3), tr.Pick(g.R, w3), tr.Pick(g.R, w3), "wide-random-small")
 	}
 	if g.Thorough() {
-		for i := 0; i < 300000; i++ {
+		for i := 0; i < 150000; i++ {
 			emitC(g, tr.Pick(g.R, w3), tr.Pick(g.R, w3), "wide-random-small-pairs")
 		}
 	}
 	// (4) random strings of tokens of all classes, paired with mutations of themselves
-	for i := 0; i < g.Scale(6000, 300000); i++ {
+	for i := 0; i < g.Scale(6000, 150000); i++ {
 		ts := randWide(g.R)
 		a := flat(ts)
 		b := mutateWide(g.R, ts)
@@ -357,7 +357,7 @@ func scaleSizes(g *tr.G, lo int) []int {
 	for k := lo; k <= 13; k++ {
 		out = append(out, 1<<k-1, 1<<k, 1<<k+1)
 	}
-	for i := 0; i < g.Scale(2, 8); i++ {
+	for i := 0; i < g.Scale(2, 5); i++ {
 		out = append(out, 1100+g.R.Intn(7900))
 	}
 	return out
@@ -478,7 +478,7 @@ func emitScaleTrunc(g *tr.G) {
 				if cut < 0 {
 					continue
 				}
-				tags := []string{"scale-" + kind}
+				tags := []string{"scale-trunc-" + kind}
 				if n >= 1023 {
 					tags = append(tags, "scale-string>=1023")
 				}
@@ -547,13 +547,13 @@ func emitWideTrunc(g *tr.G) {
 			}
 		}
 	}
-	for i := 0; i < g.Scale(1500, 40000); i++ {
+	for i := 0; i < g.Scale(1500, 20000); i++ {
 		ts := randWide(g.R)
 		s := flat(ts)
 		if g.R.Chance(1, 3) {
 			s = mutateWide(g.R, ts)
 		}
-		emitTrunc(g, s, false, "wide-random")
+		emitTrunc(g, s, false, "wide-random-trunc")
 	}
 }
 
